@@ -581,6 +581,7 @@ def run_trading(rnd, S, cfgk, intensity=1.0, script=None, analyser=False, ids=No
             pf_before = pf_snap(context)
             n_val0 = len(tr.rec.validations)
             n_ev0 = len(tr.events)
+            n_in0 = len(tr.rec.inputs)
             pos_info = {}
             try:
                 for oid_ in stocks:
@@ -798,6 +799,7 @@ def run_trading(rnd, S, cfgk, intensity=1.0, script=None, analyser=False, ids=No
                 continue
             call["val_range"] = (n_val0, len(tr.rec.validations))
             call["ev_range"] = (n_ev0, len(tr.events))          # what was published while the call ran (fills of this call's and of resting orders)
+            call["in_range"] = (n_in0, len(tr.rec.inputs))      # the inputs of the free-running world this call amounts to
             call["pos_before"] = pos_info
             def flat(x):
                 if isinstance(x, (list, tuple)):
